@@ -197,6 +197,9 @@ def basis_spline(  # pylint: disable=dangerous-default-value  # always replaced 
                     else (x <= knots[i + 1])  # Properly handle boundary
                 )
             ).astype(float)
+        # Nulls must stay nulls (the comparisons above turn NaN into 0, which
+        # the `0/0 := 0` convention of `alpha` would then leave untouched).
+        cache[0][i] = numpy.where(numpy.isnan(x), numpy.nan, cache[0][i])
     for d in range(1, degree + 1):
         cache[d % 2].clear()
         for i in range(len(knots) - d - 1):
